@@ -1,484 +1,10 @@
 (* Model driver: reads one case per line on stdin, runs the extracted Coq
    model, prints one result line per case.  The Rust harness prints the same
-   format for the implementation. *)
+   format for the implementation.  Case kinds beyond the core ones live in
+   drv_<slice>.ml modules (each exports run : string -> string list -> string option);
+   tools/build_model.sh generates drv_all.ml, which chains them. *)
 open Conv
-
-let dev_summary (d : Device.dev) : string =
-  let bytes = d.Device.d_bytes in
-  let n = Stdlib.List.length bytes in
-  (* log hash: positions and contents of all writes, oldest first *)
-  let lh = Stdlib.List.fold_left (fun h (p, bs) ->
-      fnv_bytes (fnv_int (fnv_int h (int_of_n p)) (Stdlib.List.length bs)) bs)
-      fnv_init (Stdlib.List.rev d.Device.d_log) in
-  Printf.sprintf "ops=%d len=%d h=%s wlog=%d:%s" (int_of_n d.Device.d_ops) n
-    (fnv_hex (fnv_bytes fnv_init bytes)) (Stdlib.List.length d.Device.d_log) (fnv_hex lh)
-
-let fault_of (s : string) : BinNums.coq_N option =
-  if s = "-" then None else Some (n_of_int (int_of_string s))
-
-let res_num (r : BinNums.coq_N Prelude.res) : string =
-  match r with
-  | Prelude.Ok n -> "o" ^ decimal_of_n n
-  | Prelude.Err k -> "e" ^ err_name k
-  | Prelude.Panic -> "P"
-
-(* PW <fault> <full:0|1> ops...   ops: w<hex> s<dec> f a p z *)
-let run_pw (toks : string list) : string =
-  match toks with
-  | fault :: full :: ops ->
-    let ops = Stdlib.List.map (fun t ->
-        let arg = String.sub t 1 (String.length t - 1) in
-        match t.[0] with
-        | 'w' -> PagedWriter.PwWrite (bytes_of_hex arg)
-        | 's' -> PagedWriter.PwSeek (n_of_decimal arg)
-        | 'f' -> PagedWriter.PwFlush
-        | 'a' -> PagedWriter.PwAlign
-        | 'p' -> PagedWriter.PwPosition
-        | 'z' -> PagedWriter.PwSize
-        | _ -> failwith ("bad pw op " ^ t)) ops in
-    let d0 = Device.dev_init [] (fault_of fault) in
-    let (d1, r) = PagedWriter.pw_new d0 in
-    (match r with
-     | Prelude.Ok s ->
-       let (s1, outs) = PagedWriter.pw_run ops s in
-       let (s2, _) = PagedWriter.pw_drop s1 in
-       let d = s2.PagedWriter.pw_dev in
-       String.concat " " (Stdlib.List.map res_num outs) ^ " | " ^ dev_summary d
-       ^ (if full = "1" then " dev=" ^ hex_of_bytes d.Device.d_bytes else "")
-     | Prelude.Err k -> "new:e" ^ err_name k ^ " | " ^ dev_summary d1
-     | Prelude.Panic -> "new:P")
-  | _ -> failwith "bad PW case"
-
-(* PR <fault> <pagesize> <devhex> ops...   ops: s<dec> r<dec> x<dec> a *)
-let run_pr (toks : string list) : string =
-  match toks with
-  | fault :: ps :: devhex :: ops ->
-    let ops = Stdlib.List.map (fun t ->
-        let arg = String.sub t 1 (String.length t - 1) in
-        match t.[0] with
-        | 's' -> PagedReader.PrSeek (n_of_decimal arg)
-        | 'r' -> PagedReader.PrRead (n_of_decimal arg)
-        | 'x' -> PagedReader.PrReadExact (n_of_decimal arg)
-        | 'a' -> PagedReader.PrAlign
-        | _ -> failwith ("bad pr op " ^ t)) ops in
-    let d0 = Device.dev_init (resolve_dev devhex) (fault_of fault) in
-    let (d1, r) = PagedReader.pr_new (n_of_decimal ps) d0 in
-    (match r with
-     | Prelude.Ok s ->
-       let (s1, outs) = PagedReader.pr_run ops s in
-       let show o = match o with
-         | Prelude.Ok (PagedReader.PoNum n) -> "o" ^ decimal_of_n n
-         | Prelude.Ok (PagedReader.PoBytes l) ->
-           Printf.sprintf "b%d:%s" (Stdlib.List.length l) (fnv_hex (fnv_bytes fnv_init l))
-         | Prelude.Ok PagedReader.PoUnit -> "o"
-         | Prelude.Err _ -> "e"
-         | Prelude.Panic -> "P" in
-       String.concat " " (Stdlib.List.map show outs)
-       ^ Printf.sprintf " | ops=%d" (int_of_n s1.PagedReader.pr_dev.Device.d_ops)
-     | Prelude.Err _ -> Printf.sprintf "new:e | ops=%d" (int_of_n d1.Device.d_ops)
-     | Prelude.Panic -> "new:P")
-  | _ -> failwith "bad PR case"
-
-(* PWS ops...: the logical-stream specification of the writer *)
-let run_pws (toks : string list) : string =
-  let ops = Stdlib.List.map (fun t ->
-      let arg = String.sub t 1 (String.length t - 1) in
-      match t.[0] with
-      | 'w' -> PagedWriter.PwWrite (bytes_of_hex arg)
-      | 's' -> PagedWriter.PwSeek (n_of_decimal arg)
-      | 'f' -> PagedWriter.PwFlush
-      | 'a' -> PagedWriter.PwAlign
-      | 'p' -> PagedWriter.PwPosition
-      | 'z' -> PagedWriter.PwSize
-      | _ -> failwith ("bad pw op " ^ t)) toks in
-  let (s1, outs) = PageSpec.ls_run ops PageSpec.ls_init in
-  let phys = PageSpec.paginate s1.PageSpec.ls_data in
-  String.concat " " (Stdlib.List.map res_num outs)
-  ^ Printf.sprintf " | len=%d h=%s" (Stdlib.List.length phys) (fnv_hex (fnv_bytes fnv_init phys))
-
-(* PRS <devhex> ops...: the logical-stream specification of the reader on strip_crc dev *)
-let run_prs (toks : string list) : string =
-  match toks with
-  | devhex :: ops ->
-    let ops = Stdlib.List.map (fun t ->
-        let arg = String.sub t 1 (String.length t - 1) in
-        match t.[0] with
-        | 's' -> PagedReader.PrSeek (n_of_decimal arg)
-        | 'r' -> PagedReader.PrRead (n_of_decimal arg)
-        | 'x' -> PagedReader.PrReadExact (n_of_decimal arg)
-        | 'a' -> PagedReader.PrAlign
-        | _ -> failwith ("bad pr op " ^ t)) ops in
-    let log = PageSpec.strip_crc (bytes_of_hex devhex) in
-    let outs = PageSpec.lr_run log ops BinNums.N0 in
-    let show o = match o with
-      | Prelude.Ok (PagedReader.PoNum n) -> "o" ^ decimal_of_n n
-      | Prelude.Ok (PagedReader.PoBytes l) ->
-        Printf.sprintf "b%d:%s" (Stdlib.List.length l) (fnv_hex (fnv_bytes fnv_init l))
-      | Prelude.Ok PagedReader.PoUnit -> "o"
-      | Prelude.Err _ -> "e"
-      | Prelude.Panic -> "P" in
-    String.concat " " (Stdlib.List.map show outs)
-  | _ -> failwith "bad PRS case"
-
-(* ---- bit layer ---- *)
-let parse_type (s : string) : Record.dtype =
-  match String.split_on_char '/' s with
-  | "F" :: _ -> Record.TSingle
-  | "D" :: _ -> Record.TDouble
-  | "I" :: mn :: mx :: _ -> Record.TInteger (z_of_decimal mn, z_of_decimal mx)
-  | "S" :: mn :: mx :: _ -> Record.TScaled (z_of_decimal mn, z_of_decimal mx)
-  | _ -> failwith "bad type"
-
-let n_of_hex (s : string) : BinNums.coq_N =
-  let sixteen = n_of_int 16 in
-  let acc = ref BinNums.N0 in
-  String.iter (fun c -> acc := BinNat.N.add (BinNat.N.mul !acc sixteen) (n_of_int (hexval c))) s;
-  !acc
-
-let hex_of_n (digits : int) (n : BinNums.coq_N) : string =
-  let sixteen = n_of_int 16 in
-  let rec go n k acc =
-    if k = 0 then acc else
-      let (q, r) = BinNat.N.div_eucl n sixteen in
-      go q (k - 1) (Printf.sprintf "%x" (int_of_n r) ^ acc) in
-  go n digits ""
-
-let parse_value (s : string) : Record.rvalue =
-  let a = String.sub s 1 (String.length s - 1) in
-  match s.[0] with
-  | 'f' -> Record.VSingle (n_of_hex a)
-  | 'd' -> Record.VDouble (n_of_hex a)
-  | 's' -> Record.VScaled (z_of_decimal a)
-  | 'i' -> Record.VInteger (z_of_decimal a)
-  | _ -> failwith "bad value"
-
-let show_value (v : Record.rvalue) : string =
-  match v with
-  | Record.VSingle x -> "f" ^ hex_of_n 8 x
-  | Record.VDouble x -> "d" ^ hex_of_n 16 x
-  | Record.VScaled z -> "s" ^ decimal_of_z z
-  | Record.VInteger z -> "i" ^ decimal_of_z z
-
-let rec split_chunks (stream : BinNums.coq_N list) (cuts : int list) : BinNums.coq_N list list =
-  match cuts with
-  | [] -> [stream]
-  | c :: r ->
-    let rec take k l acc = if k = 0 then (Stdlib.List.rev acc, l) else
-        match l with [] -> (Stdlib.List.rev acc, []) | x :: t -> take (k-1) t (x :: acc) in
-    let (a, b) = take c stream [] in
-    a :: split_chunks b r
-
-(* BITS <type> c<cuts> values... *)
-let run_bits (toks : string list) : string =
-  match toks with
-  | ty :: cuts :: vals ->
-    let t = parse_type ty in
-    let cuts = Stdlib.List.map int_of_string
-        (Stdlib.List.filter (fun x -> x <> "") (String.split_on_char ',' (String.sub cuts 1 (String.length cuts - 1)))) in
-    let vals = Stdlib.List.map parse_value vals in
-    let w = int_of_n (Record.bit_size t) in
-    let rec wr i vs b = match vs with
-      | [] -> Stdlib.Ok b
-      | v :: r -> (match Record.dtype_write t v b with
-          | Prelude.Ok b' -> wr (i+1) r b'
-          | Prelude.Err k -> Stdlib.Error (Printf.sprintf "w=%d we%s@%d" w (err_name k) i)
-          | Prelude.Panic -> Stdlib.Error (Printf.sprintf "w=%d wP@%d" w i)) in
-    (match wr 0 vals BsWrite.bsw_new with
-     | Stdlib.Error m -> m
-     | Stdlib.Ok b ->
-       let (_, stream) = BsWrite.bsw_get_all_bytes b in
-       let out = Printf.sprintf "w=%d stream=%s" w (hex_of_bytes stream) in
-       if w = 0 then out else
-         (match Record.feed_chunks t (split_chunks stream cuts) BsRead.bsr_new [] with
-          | Prelude.Ok (_, vs) -> out ^ " out=" ^ String.concat "," (Stdlib.List.map show_value vs)
-          | Prelude.Err k -> out ^ " re" ^ err_name k
-          | Prelude.Panic -> out ^ " rP"))
-  | _ -> failwith "bad BITS case"
-
-(* BITSPEC <type> c<cuts> values...: the independent codec *)
-let run_bitspec (toks : string list) : string =
-  match toks with
-  | ty :: _ :: vals ->
-    let t = parse_type ty in
-    let vals = Stdlib.List.map parse_value vals in
-    let w = int_of_n (BitSpec.spec_bit_size t) in
-    let stream = BitSpec.spec_stream_bytes t vals in
-    let out = Printf.sprintf "w=%d stream=%s" w (hex_of_bytes stream) in
-    if w = 0 then out else
-      out ^ " out=" ^ String.concat "," (Stdlib.List.map show_value (BitSpec.spec_decode_stream t stream))
-  | _ -> failwith "bad BITSPEC case"
-
-let run_bw (toks : string list) : string =
-  let outs = ref [] in
-  let b = ref BsWrite.bsw_new in
-  (try
-     Stdlib.List.iter (fun t ->
-         let a = String.sub t 1 (String.length t - 1) in
-         let push x = outs := x :: !outs; if x = "P" then raise Exit in
-         match t.[0] with
-         | 'b' ->
-           let i = String.index a ':' in
-           let bits = n_of_decimal (String.sub a 0 i) in
-           let data = bytes_of_hex (String.sub a (i+1) (String.length a - i - 1)) in
-           (match BsWrite.bsw_add_bits !b data bits with
-            | Prelude.Ok b' -> b := b'; push "o" | _ -> push "P")
-         | 'y' ->
-           (match BsWrite.bsw_add_bytes !b (bytes_of_hex a) with
-            | Prelude.Ok b' -> b := b'; push "o" | _ -> push "P")
-         | 'g' ->
-           (match BsWrite.bsw_get_full_bytes !b with
-            | Prelude.Ok (b', v) -> b := b'; push ("[" ^ hex_of_bytes v ^ "]") | _ -> push "P")
-         | 'G' -> let (b', v) = BsWrite.bsw_get_all_bytes !b in b := b'; push ("[" ^ hex_of_bytes v ^ "]")
-         | 'n' ->
-           (match BsWrite.bsw_full_bytes !b with
-            | Prelude.Ok f -> push (Printf.sprintf "%d/%d" (int_of_n f) (int_of_n (BsWrite.bsw_all_bytes !b)))
-            | _ -> push "P")
-         | _ -> failwith "bad bw op") toks
-   with Exit -> ());
-  String.concat " " (Stdlib.List.rev !outs)
-
-let run_br (toks : string list) : string =
-  let outs = ref [] in
-  let b = ref BsRead.bsr_new in
-  (try
-     Stdlib.List.iter (fun t ->
-         let a = String.sub t 1 (String.length t - 1) in
-         let push x = outs := x :: !outs; if x = "P" then raise Exit in
-         match t.[0] with
-         | 'a' ->
-           (match BsRead.bsr_append !b (bytes_of_hex a) with
-            | Prelude.Ok b' -> b := b'; push "o" | _ -> push "P")
-         | 'e' ->
-           (match BsRead.bsr_extract !b (n_of_decimal a) with
-            | Prelude.Ok (b', Some v) -> b := b'; push (decimal_of_n v)
-            | Prelude.Ok (b', None) -> b := b'; push "none"
-            | _ -> push "P")
-         | 'v' ->
-           (match BsRead.bsr_available !b with
-            | Prelude.Ok v -> push (decimal_of_n v) | _ -> push "P")
-         | _ -> failwith "bad br op") toks
-   with Exit -> ());
-  String.concat " " (Stdlib.List.rev !outs)
-
-(* ---- file level, binary side ---- *)
-let parse_proto (s : string) : Record.dtype list =
-  (* name=type,name=type,... ; names are ignored by the binary model *)
-  Stdlib.List.map (fun nt ->
-      match String.index_opt nt '=' with
-      | Some i -> parse_type (String.sub nt (i+1) (String.length nt - i - 1))
-      | None -> parse_type nt)
-    (Stdlib.List.filter (fun x -> x <> "") (String.split_on_char ',' s))
-
-let parse_points (s : string) : Record.rvalue list list =
-  if s = "" then [] else
-    Stdlib.List.map (fun p ->
-        Stdlib.List.map parse_value (Stdlib.List.filter (fun x -> x <> "") (String.split_on_char ',' p)))
-      (String.split_on_char ';' s)
-
-let parse_item (t : string) : FileBin.item =
-  match String.split_on_char ':' t with
-  | ["B"; h] -> FileBin.IBlob (bytes_of_hex h)
-  | ["P"; proto; pts] -> FileBin.IPc (parse_proto proto, parse_points pts)
-  | ["P"; proto] -> FileBin.IPc (parse_proto proto, [])
-  | _ -> failwith ("bad item " ^ t)
-
-let show_points (pts : Record.rvalue list list) : string =
-  String.concat ";" (Stdlib.List.map (fun p -> String.concat "," (Stdlib.List.map show_value p)) pts)
-
-let fnv_string (s : string) : string =
-  let h = ref fnv_init in
-  String.iter (fun c -> h := fnv_byte !h (Char.code c)) s;
-  fnv_hex !h
-
-let raw_summary_st (limit : int option) (s : PagedReader.pr) (fo : BinNums.coq_N) (recs : BinNums.coq_N) (proto : Record.dtype list)
-  : PagedReader.pr * string =
-  let (s1, r) = Prog.rrun (QueueReader.raw_new fo recs proto) s in
-  let last = ref s1 in
-  let txt = match r with
-  | Prelude.Ok it ->
-    let buf = Buffer.create 256 in
-    let count = ref 0 in
-    let rec loop s it =
-      last := s;
-      if (match limit with Some n -> !count >= n | None -> false) then "none" else
-      let (s', r) = Prog.rrun (QueueReader.raw_next s.PagedReader.pr_log_size it) s in
-      last := s';
-      match r with
-      | Prelude.Ok (it', QueueReader.Item p) ->
-        if !count > 0 then Buffer.add_char buf ';';
-        Buffer.add_string buf (String.concat "," (Stdlib.List.map show_value p));
-        incr count; loop s' it'
-      | Prelude.Ok (_, QueueReader.Done) -> "none"
-      | Prelude.Err k -> "e" ^ err_name k
-      | Prelude.Panic -> "P" in
-    let fin = loop s1 it in
-    let txt = Buffer.contents buf in
-    Printf.sprintf "n=%d end=%s h=%s%s" !count fin (fnv_string txt)
-      (if String.length txt <= 1500 then " pts=" ^ txt else "")
-  | Prelude.Err k -> "new:e" ^ err_name k
-  | Prelude.Panic -> "new:P" in
-  (!last, txt)
-
-let raw_summary s fo recs proto = snd (raw_summary_st None s fo recs proto)
-
-(* FW <fault> item... X:<xmlhex> [DUMP] : run the writer program; items one by one so that the
-   result of each call is visible, the writer lives on after a failed item as in the API;
-   then read everything back from the written file *)
-let run_fw (toks : string list) : string =
-  match toks with
-  | fault :: rest ->
-    let xml = ref None in
-    let dump = Stdlib.List.mem "DUMP" rest in
-    let items = Stdlib.List.filter_map (fun t ->
-        if t = "DUMP" then None else
-        if String.length t >= 2 && String.sub t 0 2 = "X:" then
-          (xml := Some (bytes_of_hex (String.sub t 2 (String.length t - 2))); None)
-        else Some (parse_item t)) rest in
-    let d0 = Device.dev_init [] (fault_of fault) in
-    let (d1, r) = PagedWriter.pw_new d0 in
-    (match r with
-     | Prelude.Ok s ->
-       let outs = ref [] in
-       let results = ref [] in
-       let st = ref s in
-       let res_s r f = match r with
-         | Prelude.Ok v -> f v | Prelude.Err k -> "e" ^ err_name k | Prelude.Panic -> "P" in
-       let (s1, r0) = Prog.wrun FileBin.writer_init !st in
-       st := s1;
-       outs := [res_s r0 (fun () -> "o")];
-       let fin_ok = ref false in
-       if r0 = Prelude.Ok () then begin
-         Stdlib.List.iter (fun it ->
-             let (s2, r) = Prog.wrun (FileBin.item_write it) !st in
-             st := s2;
-             (match r with Prelude.Ok o -> results := (it, o) :: !results | _ -> ());
-             outs := res_s r (fun o -> match o with
-                 | FileBin.OBlob (o, l) -> Printf.sprintf "b%s:%s" (decimal_of_n o) (decimal_of_n l)
-                 | FileBin.OPc (o, n) -> Printf.sprintf "p%s:%s" (decimal_of_n o) (decimal_of_n n)) :: !outs) items;
-         (match !xml with
-          | Some x ->
-            let (s3, r) = Prog.wrun (FileBin.writer_finalize x) !st in
-            st := s3; outs := res_s r (fun () -> "o") :: !outs;
-            fin_ok := (r = Prelude.Ok ())
-          | None -> ())
-       end;
-       let (s4, _) = PagedWriter.pw_drop !st in
-       let d = s4.PagedWriter.pw_dev in
-       let rb =
-         match ReaderOpen.reader_open (Device.dev_init d.Device.d_bytes None) with
-         | (_, Prelude.Ok ((rs, _), _)) ->
-           String.concat "" (Stdlib.List.map (fun (it, o) ->
-               match it, o with
-               | FileBin.IPc (proto, _), FileBin.OPc (fo, n) -> " # pc " ^ raw_summary rs fo n proto
-               | FileBin.IBlob _, FileBin.OBlob (bo, bl) ->
-                 let (_, r) = Prog.rrun (FileBin.blob_read rs.PagedReader.pr_log_size bo bl) rs in
-                 " # bl " ^ (match r with
-                     | Prelude.Ok data -> Printf.sprintf "ok n=%d h=%s" (Stdlib.List.length data) (fnv_hex (fnv_bytes fnv_init data))
-                     | Prelude.Err k -> "e" ^ err_name k
-                     | Prelude.Panic -> "P")
-               | _ -> " # ??") (Stdlib.List.rev !results))
-         | _ -> " # reopen-failed" in
-       String.concat " " (Stdlib.List.rev !outs) ^ " | " ^ dev_summary d ^ rb
-       ^ (if dump then " dev=" ^ hex_of_bytes d.Device.d_bytes else "")
-     | Prelude.Err k -> "new:e" ^ err_name k ^ " | " ^ dev_summary d1
-     | Prelude.Panic -> "new:P")
-  | _ -> failwith "bad FW case"
-
-(* RAWRD <fault> <devhex> <file_offset> <records> <proto> : raw iteration with the descriptor given *)
-let run_rawrd (toks : string list) : string =
-  match toks with
-  | [fault; devhex; fo; recs; proto] ->
-    let d0 = Device.dev_init (resolve_dev devhex) (fault_of fault) in
-    (match ReaderOpen.reader_open d0 with
-     | (_, Prelude.Ok ((s, _), _)) -> raw_summary s (n_of_decimal fo) (n_of_decimal recs) (parse_proto proto)
-     | (_, Prelude.Err k) -> "open:e" ^ err_name k
-     | (_, Prelude.Panic) -> "open:P")
-  | _ -> failwith "bad RAWRD case"
-
-(* OPEN <fault> <devhex> : header fields and XML bytes *)
-let run_open (toks : string list) : string =
-  match toks with
-  | [fault; devhex] ->
-    let d0 = Device.dev_init (resolve_dev devhex) (fault_of fault) in
-    (match ReaderOpen.reader_open d0 with
-     | (d, Prelude.Ok ((_, h), xml)) ->
-       Printf.sprintf "ok phys=%s xoff=%s xlen=%s xml=%s ops=%d" (decimal_of_n h.FileBin.h_phys_length)
-         (decimal_of_n h.FileBin.h_xml_offset) (decimal_of_n h.FileBin.h_xml_length)
-         (fnv_hex (fnv_bytes fnv_init xml)) (int_of_n d.Device.d_ops)
-     | (d, Prelude.Err k) -> Printf.sprintf "e%s ops=%d" (err_name k) (int_of_n d.Device.d_ops)
-     | (_, Prelude.Panic) -> "P")
-  | _ -> failwith "bad OPEN case"
-
-(* BLOBRD <fault> <devhex> <offset> <length> *)
-let run_blobrd (toks : string list) : string =
-  match toks with
-  | [fault; devhex; off; ln] ->
-    let d0 = Device.dev_init (resolve_dev devhex) (fault_of fault) in
-    (match ReaderOpen.reader_open d0 with
-     | (_, Prelude.Ok ((s, _), _)) ->
-       let (_, r) = Prog.rrun (FileBin.blob_read s.PagedReader.pr_log_size (n_of_decimal off) (n_of_decimal ln)) s in
-       (match r with
-        | Prelude.Ok data -> Printf.sprintf "ok n=%d h=%s" (Stdlib.List.length data) (fnv_hex (fnv_bytes fnv_init data))
-        | Prelude.Err k -> "e" ^ err_name k
-        | Prelude.Panic -> "P")
-     | (_, Prelude.Err k) -> "open:e" ^ err_name k
-     | (_, Prelude.Panic) -> "open:P")
-  | _ -> failwith "bad BLOBRD case"
-
-(* VCRC <fault> <devhex> / RAWXML <fault> <devhex> *)
-let run_vcrc (toks : string list) : string =
-  match toks with
-  | [fault; devhex] ->
-    (match FileBin.validate_crc (Device.dev_init (resolve_dev devhex) (fault_of fault)) with
-     | (_, Prelude.Ok ps) -> "ok " ^ decimal_of_n ps
-     | (_, Prelude.Err k) -> "e" ^ err_name k
-     | (_, Prelude.Panic) -> "P")
-  | _ -> failwith "bad VCRC case"
-
-let run_rawxml (toks : string list) : string =
-  match toks with
-  | [fault; devhex] ->
-    (match ReaderOpen.raw_xml (Device.dev_init (resolve_dev devhex) (fault_of fault)) with
-     | (_, Prelude.Ok xml) -> Printf.sprintf "ok n=%d h=%s" (Stdlib.List.length xml) (fnv_hex (fnv_bytes fnv_init xml))
-     | (_, Prelude.Err k) -> "e" ^ err_name k
-     | (_, Prelude.Panic) -> "P")
-  | _ -> failwith "bad RAWXML case"
-
-(* SESS <fault> <devhex> op... : several read operations on ONE reader *)
-let run_sess (toks : string list) : string =
-  match toks with
-  | fault :: devhex :: ops ->
-    let d0 = Device.dev_init (resolve_dev devhex) (fault_of fault) in
-    (match ReaderOpen.reader_open d0 with
-     | (_, Prelude.Ok ((s, _), xml)) ->
-       let st = ref s in
-       let outs = ref ["open:ok"] in
-       Stdlib.List.iter (fun t ->
-           let o = match String.split_on_char ':' t with
-             | ["X"] -> "xml=" ^ fnv_hex (fnv_bytes fnv_init xml)
-             | ["R"; fo; recs; proto; limit] ->
-               let lim = if limit = "all" then None else Some (int_of_string limit) in
-               let (s', txt) = raw_summary_st lim !st (n_of_decimal fo) (n_of_decimal recs) (parse_proto proto) in
-               st := s'; txt
-             | ["B"; off; ln] ->
-               let (s', r) = Prog.rrun (FileBin.blob_read !st.PagedReader.pr_log_size (n_of_decimal off) (n_of_decimal ln)) !st in
-               st := s';
-               (match r with
-                | Prelude.Ok data -> Printf.sprintf "ok n=%d h=%s" (Stdlib.List.length data) (fnv_hex (fnv_bytes fnv_init data))
-                | Prelude.Err k -> "e" ^ err_name k
-                | Prelude.Panic -> "P")
-             | _ -> failwith ("bad sess op " ^ t) in
-           outs := o :: !outs) ops;
-       String.concat " # " (Stdlib.List.rev !outs)
-     | (_, Prelude.Err k) -> "open:e" ^ err_name k
-     | (_, Prelude.Panic) -> "open:P")
-  | _ -> failwith "bad SESS case"
-
-let run_crc (toks : string list) : string =
-  match toks with
-  | [hex] -> decimal_of_n (Crc.crc32c (bytes_of_hex hex))
-  | [] -> decimal_of_n (Crc.crc32c [])
-  | _ -> failwith "bad CRC case"
+open Drv_core
 
 let () =
   try
@@ -505,7 +31,7 @@ let () =
           | "BW" :: r -> run_bw r
           | "BR" :: r -> run_br r
           | "PRS" :: r -> run_prs r
-          | k :: _ -> "unknown-kind " ^ k
+          | k :: r -> Drv_all.dispatch k r
         with
         | Failure m -> "driver-failure " ^ m
         | Stack_overflow -> "driver-stack-overflow" in
